@@ -196,6 +196,9 @@ def handleUltra (s : St) (x y w h : Nat) (bs : Bytes) : Res (St × Bytes) := do
   if n = 0 then pure (s, bs) else
   if n ≥ 2 ^ 31 then .no else
   if need = 0 then .no else
+  -- fixed code (fixes/C08-ultra-buffer-alloc.diff): a payload size whose 4-byte round-up would
+  -- overflow `int` is refused (when the compressed-data buffer has to grow, which it must for such a size)
+  if n > 2 ^ 31 - 1 - 3 then .no else
   let s := if s.rawBuf < need then { s with rawBuf := (need + 3) / 4 * 4 } else s
   let (z, bs) ← ofOpt (takeN n bs)
   let (plain, s) ← s.inflate zidLzo z
